@@ -56,6 +56,7 @@ func genC18(t *rapid.T) *C18Case {
 		}
 
 		c.Reps = genC18Reps(t, len(c.K))
+		c.Vars = genDisplayVars(t)
 
 		return c
 	}
@@ -89,6 +90,7 @@ func genC18(t *rapid.T) *C18Case {
 	}
 
 	c.Reps = genC18Reps(t, len(c.K))
+	c.Vars = genDisplayVars(t)
 
 	return c
 }
